@@ -279,7 +279,16 @@ type forcedStatusCodeWriter struct {
 	rb *ResponseBuffer
 }
 
-func (fscw forcedStatusCodeWriter) WriteHeader(int) {
+func (fscw forcedStatusCodeWriter) WriteHeader(code int) {
+	switch code {
+	case http.StatusPartialContent, http.StatusNotModified,
+		http.StatusPreconditionFailed, http.StatusRequestedRangeNotSatisfiable:
+		// ServeContent's answer to a range or conditional request: the
+		// header and body it sends belong to this status, not to the
+		// buffered one
+		fscw.ResponseWriter.WriteHeader(code)
+		return
+	}
 	fscw.ResponseWriter.WriteHeader(fscw.rb.status)
 }
 
